@@ -22,7 +22,7 @@ def run(i_diff):
         if a.returncode != 0:
             res["error"] = "patch does not apply: " + a.stdout[-300:]
             return res
-        shutil.copytree("/verif", v, ignore=shutil.ignore_patterns(".git", ".work", "seeded", "evidence"), symlinks=True)
+        shutil.copytree("/verif", v, ignore=shutil.ignore_patterns(".git", ".work", "seeded", "evidence", "incremental"), symlinks=True)
         os.makedirs(os.path.join(v, "evidence"), exist_ok=True)
         env = dict(os.environ, VERIF_REPO=r)
         p = subprocess.run(["tools/runall.sh", "quick", "1"], cwd=v, env=env, stdout=subprocess.PIPE, stderr=subprocess.STDOUT, text=True)
